@@ -85,7 +85,12 @@ def stackStep (s : StackSt) : List String → StackSt × String
     | some c => (s, match getInterface (envOf s) c s.insts with | some x => toString x | none => "-")
     | none => (s, "bad-op")
   | "builder" :: ops =>
-    let parsed := ops.map fun o => if o == "pop" then some BuilderOp.pop else (parseSlot o).map BuilderOp.push
+    let parsed := ops.map fun o =>
+      if o == "pop" then some BuilderOp.pop
+      else if o.startsWith "E" then
+        let ss := ((o.drop 1).toString.splitOn ";").map parseSlot
+        if ss.all Option.isSome then some (BuilderOp.extend (ss.filterMap id)) else none
+      else (parseSlot o).map BuilderOp.push
     if parsed.all Option.isSome then
       let sl := builderRun (parsed.filterMap id)
       (s, " ".intercalate (sl.map fun
